@@ -81,6 +81,10 @@ def g_history(draw):
             op["var"] = 10.0 ** r.uniform(-20, -14, (C, F))
         elif name == "em_step":
             op["upd"] = [bool(b) for b in gen.choice(draw, [(1, 1, 1), (0, 1, 0), (1, 0, 0), (0, 0, 1), (1, 1, 0), (0, 1, 1)])]
+            # the training rows may come as a Dask array, on an executor that shares memory with the caller or on one
+            # that hands every task pickled copies (as worker processes do)
+            op["dask"] = gen.choice(draw, [None, None, "shared", "isolated"])
+            op["blocks"] = gen.integer(draw, 1, 3)
         elif name == "lend_to_other_machine":
             op["factor"] = gen.choice(draw, [0.3, 2.0, 50.0])
             op["train"] = gen.boolean(draw)
@@ -196,7 +200,16 @@ def c_history(ctx, case):
                 continue
             g.update_means, g.update_variances, g.update_weights = op["upd"]
             g.max_fitting_steps = 1
-            g.fit(train)
+            if op.get("dask"):
+                from vf import sched
+
+                nb = max(1, min(int(op.get("blocks", 2)), len(train)))
+                cuts = [len(train) * j // nb for j in range(nb + 1)]
+                chunks = [b - a for a, b in zip(cuts[:-1], cuts[1:]) if b > a]
+                with sched.owned("random", i, op["dask"] == "isolated"):
+                    g.fit(sut.dask_rows(train, chunks))
+            else:
+                g.fit(train)
             vars_unset = False
         elif name == "lend_to_other_machine":
             # ANOTHER machine, with floors above some or all of this machine's variances, is given the arrays this
